@@ -109,6 +109,21 @@ def run(ctx):
             ctx.violation("lost-request/full-queues/" + r["fault"],
                           "%d of %d requests on open connections never answered after '%s' with full backend queues (%s)" % (
                               r["unanswered"], r["sent"], r["fault"], r.get("firstLost")), r)
+    # 3c. split requests whose children fail (several / all of them, for different reasons): one reply, no crash
+    mfile = os.path.join(ctx.work, "multifail.ndjson")
+    rc, so, se = ctx.harness(["c02-multifail", "-out", mfile], timeout=600, allow_fail=True)
+    recs = kit.read_ndjson(mfile) if os.path.exists(mfile) else []
+    if rc != 0:
+        if "close of closed channel" in se:
+            ctx.violation("double-completion/split-request-children-fail",
+                          "a split request was completed twice when several of its children failed: the processor panicked "
+                          "(close of closed channel) after %d scenarios" % len(recs), {"stderr": se[-2500:], "completed": recs[-2:]})
+        else:
+            raise kit.Inconclusive("c02-multifail exited %d: %s" % (rc, se[-1500:]))
+    for r in recs:
+        ctx.case(key=["multifail", r["case"], r["cmd"]], nontrivial=True)
+        if not r["ok"]:
+            ctx.violation("split-request/%s" % r["case"], "%s %s: %s (replies %s)" % (r["case"], r["cmd"], r["why"], r["replies"]), r)
     # 4. free-running pipelines with faults, boundary trace validated against PipelineObs
     pipeline.run_pipelines(ctx, faults=True, label="c02")
     ctx.cov["rule"] = ("behaviours = TLC simulation of UpstreamGen (seeded); distinct by action sequence; non-trivial = contains a "
